@@ -133,6 +133,9 @@ impl Visitor for Sites {
             self.header(&f.1, "anonymous");
         }
     }
+    fn visit_type_function(&mut self, n: &luau::TypeFunction) {
+        self.header(n.function_body(), "type-function");
+    }
 }
 
 impl Sites {
@@ -300,7 +303,8 @@ fn option_combo(k: usize) -> (&'static str, &'static str, &'static str) {
     (cfg::QUOTES[k % 4], cfg::CALL_PARENS[(k / 4) % 5], cfg::SPACE_AFTER[(k / 20) % 4])
 }
 
-const TEMPLATES: [&str; 13] = [
+const TEMPLATES: [&str; 14] = [
+    "f 'a' 'b'\nf('x')('y')\nNew 'TextLabel' { Text = 'hi' }\nk { 1 } { 2 }\nlocal c = curry('a')('b')('c')\nlocal d = make { x = 1 } 'tail'\n",
     "local a = f('a')[1]\nlocal b = f({})[k]\nlocal c = f 'a'[1]\nlocal d = g {}['x']\nlocal e = obj:m('s')[i].n\ncache('x')[k] = v\ncache 'y'[k].z = v\nlocal h = f('a')[1]('b')[2]\n",
     "f('a')\nf(\"b\")\nf([[c]])\nf({})\nf({ 1, 2 })\nf 'd'\nf \"e\"\nf {}\nf { x = 1 }\n",
     "local x = f('a').y\nlocal y = f('a'):m()\nlocal z = f({}).k\nlocal w = f({}):m('q')\nlocal v = f 'a'.y\nlocal u = g {}:m {}\n",
@@ -316,9 +320,16 @@ const TEMPLATES: [&str; 13] = [
     "very_long_function_name_number_one('a string argument that is fairly long'):and_a_method({ with = 'table' }):another('x')\n",
 ];
 
+/// Luau-only forms (formatted under the Luau syntax)
+const LUAU_TEMPLATES: [&str; 3] = [
+    "type function double(ty) return ty end\nexport type function pair(a, b) return a end\nlocal function plain(a) return a end\nfunction t.g<T>(a: T): T return a end\n",
+    "local x = f(`a{b}`)\nlocal y = g(`plain`)\nh(`x`):m(`y`)\nlocal z = f('s') :: string\nlocal w = f({}) :: any\n",
+    "local v = if f('a') then g({}) else h('b')\nt.n += f('x')\nfor _, p in f('list') do continue end\n",
+];
+
 pub fn n_items(w: &Work, ctx: &Ctx) -> usize {
     let seeded = if ctx.quick() { 600 } else { 60000 };
-    w.corpus.len() * if ctx.quick() { 2 } else { 10 } + TEMPLATES.len() + seeded
+    w.corpus.len() * if ctx.quick() { 2 } else { 10 } + TEMPLATES.len() + LUAU_TEMPLATES.len() + seeded
 }
 
 fn eval_and_judge(ctx: &mut Ctx, id: &str, src: &str, c: &Cfg) {
@@ -365,6 +376,21 @@ pub fn run_item(w: &Work, ctx: &mut Ctx, mut i: usize) {
         return;
     }
     i -= TEMPLATES.len();
+    if i < LUAU_TEMPLATES.len() {
+        for combo in 0..80 {
+            let (q, cp, sp) = option_combo(combo);
+            for width in [120usize, 40] {
+                let mut c = Cfg::with_syntax("Luau");
+                c.quote_style = q;
+                c.call_parentheses = cp;
+                c.space_after_function_names = sp;
+                c.column_width = width;
+                eval_and_judge(ctx, &format!("c11:luau-tmpl:{i}:{q}:{cp}:{sp}:w{width}"), LUAU_TEMPLATES[i], &c);
+            }
+        }
+        return;
+    }
+    i -= LUAU_TEMPLATES.len();
     let mut rng = Rng::derive(ctx.seed, 0xc11, i as u64);
     if rng.chance(2, 3) {
         let syntax = *rng.pick(&cfg::SYNTAXES);
